@@ -81,6 +81,9 @@ def _variant(spec, v, plane_z=-6.0):
     if v == 1:
       # collide with the ground plane only (links may overlap each other)
       g['contype'], g['conaffinity'] = 0, 1
+      # a contact margin larger than the 3 cm gap: hovering inside the margin
+      # is still "not touching"
+      g['extra'] = dict(g.get('extra', {}), margin='0.05')
     l['geom'] = g
     if v not in (2, 3):
       l['range'] = [None] * len(l['range'])
